@@ -2,7 +2,7 @@
     arguments already hex-decoded by the OCaml driver, result printed as one
     canonical line.  The Go (and C++) drivers print the same lines from the
     implementation.  No proofs. *)
-From GFS Require Import Base Dec Regex GenRegex GenPadTables Ranges Pad FrameSet Compress Path Seq Listing SpecRange.
+From GFS Require Import Base Dec Regex GenRegex GenPadTables Ranges Pad FrameSet Compress Path Seq Listing SpecRange SpecSeq.
 Local Open Scope Z_scope.
 
 Definition hexd (n : nat) : byte := if Nat.ltb n 10 then (48 + n)%nat else (87 + n)%nat.
@@ -98,8 +98,9 @@ Definition show_seq_core (q : fileseq) : bytes :=
   kh "string" (q_string q) ++ kz "len" (q_len q) ++ kz "start" (q_start q) ++ kz "end" (q_end q).
 
 (** paths by Index(-1 .. len), bounded by the caller's generator *)
+Definition path_cap : Z := 2000.
 Definition show_seq_paths (q : fileseq) : bytes :=
-  kv "paths" (join_with c_comma (map (fun i => hexs (q_index q i)) (zrange (-1) (Z.to_nat (q_len q + 2))))).
+  kv "paths" (join_with c_comma (map (fun i => hexs (q_index q i)) (zrange (-1) (Z.to_nat (Z.min (q_len q) path_cap + 2))))).
 
 Definition show_seq (q : fileseq) : bytes := show_seq_core q ++ show_seq_paths q.
 
@@ -109,7 +110,7 @@ Definition show_seq_opt (o : option fileseq) : bytes :=
 (** a listing record: compared as a multiset by the orchestrator *)
 Definition show_listed (q : fileseq) : bytes :=
   hexs (q_string q) ++ [58%nat] ++ itoa (q_zfill q) ++ [58%nat] ++ itoa (int_of_style (q_style q)) ++ [58%nat] ++
-  join_with c_comma (map hexs (map (q_index q) (zrange 0 (Z.to_nat (q_len q))))).
+  join_with c_comma (map hexs (map (q_index q) (zrange 0 (Z.to_nat (Z.min (q_len q) path_cap))))).
 
 Definition show_listing (r : outcome (list fileseq)) : bytes :=
   match r with
@@ -198,6 +199,27 @@ Definition dispatch (args : list bytes) : bytes :=
         | Ok f => s2b "OK" ++ probe_blocks_at (fs_blocks f) (argzl idxs) (argzl vals)
         | other => outcome_tag other
         end
+      | _ => s2b "BADARGS"
+      end
+    else if beq op (s2b "big") then
+      (* huge single-component ranges: closed-form answers only, no enumeration *)
+      match rest with
+      | [r; idxs; vals] =>
+        match new_frameset r with
+        | Ok f =>
+          s2b "OK" ++ probe_blocks_at (fs_blocks f) (argzl idxs) (argzl vals) ++
+          match new_fileseq (s2b "/x/foo." ++ r ++ s2b "#.exr") Hash4 with
+          | Ok q => kh "qstr" (q_string q) ++ kz "qlen" (q_len q) ++ kh "p0" (q_index q 0) ++
+                    kh "plast" (q_index q (q_len q - 1)) ++ kh "pout" (q_index q (q_len q))
+          | _ => kv "qstr" (s2b "ERR")
+          end
+        | other => outcome_tag other
+        end
+      | _ => s2b "BADARGS"
+      end
+    else if beq op (s2b "unamb") then
+      match rest with
+      | [d; b; r; p; e] => s2b "OK" ++ kb "unamb" (unambiguous d b r p e)
       | _ => s2b "BADARGS"
       end
     else if beq op (s2b "norm") then
